@@ -455,6 +455,29 @@ def r_levels(prog, tier):
                           'the two recordings always happen together' if together else
                           ('`%s` additionally depends on %s: some constituents are missing from one of the two tables'
                            % cond if cond else 'recordings not matched'), construct='lvl-both', line=f.node.lineno))
+    # both tables record the same level for the node
+    if loopv:
+        app = [n for n in stores if isinstance(n.ast, ast.Expr) and isinstance(n.ast.value, ast.Call)
+               and n.ast.value.func.attr == 'append' and n.ast.value.args and unparse(n.ast.value.args[0]) == loopv
+               and isinstance(n.ast.value.func.value, ast.Subscript)]
+        rev = [n for n in stores if isinstance(n.ast, ast.Assign) and unparse(n.ast.targets[0].slice) == loopv]
+        if app and rev:
+            keys = set(unparse(a.ast.value.func.value.slice) for a in app)
+            vals = set(unparse(r.ast.value) for r in rev)
+            verdict_, why_ = None, 'level expressions %s / %s not compared' % (sorted(keys), sorted(vals))
+            if keys == vals:
+                verdict_, why_ = True, 'the node is filed under `%s` and that same value is recorded for it' % sorted(keys)[0]
+            elif len(keys) == 1 and len(vals) == 1 and all(k.isidentifier() for k in keys | vals):
+                k_, v_ = sorted(keys)[0], sorted(vals)[0]
+                dk = [v for (_, v) in name_defs(f, k_)]
+                dv = [v for (_, v) in name_defs(f, v_)]
+                # positive evidence: two different locals with different definitions
+                if dk and dv and sorted(unparse(x) if isinstance(x, ast.AST) else str(x) for x in dk) != \
+                        sorted(unparse(x) if isinstance(x, ast.AST) else str(x) for x in dv):
+                    verdict_, why_ = False, 'the node is filed under level `%s` but `%s` is recorded as its level: the two ' \
+                                            'tables disagree whenever these differ' % (k_, v_)
+            obs.append(Ob('R-LEVELS', f.fq, 'the level recorded for a node is the level it is filed under', verdict_, why_,
+                          construct='lvl-same', line=f.node.lineno))
     # the recorded level is a maximum over the paths to the tokens
     lv = None
     for n in stores:
